@@ -996,6 +996,16 @@ fn independent_cff_tables(ctx: &Ctx, case: &Case<'_>, ind: &Result<crate::c18::I
         Ok(i) => i,
         Err(_) => return, // reported by the outline seam
     };
+    // every custom string (SID >= 391) the output refers to - from its DICTs and, for a name-keyed font, its charset - must
+    // resolve inside the output's String INDEX
+    let nstr = out.string_index_len();
+    for (place, sid) in out.referenced_sids() {
+        if sid >= 391 && (sid as usize - 391) >= nstr {
+            ctx.violation("C07:independent-reader:sid-beyond-string-index", || json!({"case": case.describe(), "referenced_from": place, "sid": sid, "strings_in_output": nstr}));
+            break;
+        }
+    }
+    ctx.bump("independent_cff_sid_tables_checked", 1);
     let src_sfnt = otmodel::sfnt::parse(&case.src.data);
     let src_is_cff2 = src_sfnt.as_ref().map_or(false, |f| f.table(otmodel::tag(b"CFF2")).is_some());
     let src_cff = if src_sfnt.as_ref().map_or(false, |f| f.table(otmodel::tag(b"CFF ")).is_some()) { crate::c18::IndependentCff::new(&case.src.data).ok() } else { None };
@@ -1019,8 +1029,41 @@ fn independent_cff_tables(ctx: &Ctx, case: &Case<'_>, ind: &Result<crate::c18::I
         }
     }
     if let Some(sc) = &src_cff {
+        // global subroutines: the subsetter keeps the INDEX length (unused entries emptied) so that biased operands stay valid,
+        // or drops the INDEX altogether when no retained glyph calls a global subroutine
+        let (gs, go) = (sc.global_subr_count(), out.global_subr_count());
+        if go != gs && go != 0 {
+            ctx.violation("C07:independent-reader:global-subr-count-changed", || json!({"case": case.describe(), "source": gs, "output": go}));
+        }
         if sc.is_cid_keyed() != out.is_cid_keyed() {
             return; // converted to CID-keyed: the DICTs are rebuilt
+        }
+        // strings: a SID-valued operator names the same string as in the source (custom strings compared as text, standard
+        // strings by SID); a name-keyed output names every retained glyph as the source does
+        let name_of = |f: &crate::c18::IndependentCff<'_>, sid: u16| -> Result<u16, Option<Vec<u8>>> { if sid < 391 { Ok(sid) } else { Err(f.custom_string(sid)) } };
+        let (srefs, orefs) = (sc.referenced_sids(), out.referenced_sids());
+        for (place, osid) in orefs.iter().filter(|(p, _)| !p.starts_with("charset[")) {
+            if let Some((_, ssid)) = srefs.iter().find(|(p, _)| p == place) {
+                if name_of(out, *osid) != name_of(sc, *ssid) {
+                    ctx.violation("C07:independent-reader:dict-string-changed", || json!({"case": case.describe(), "operator": place, "source_sid": ssid, "output_sid": osid, "source_string": sc.custom_string(*ssid).map(|s| String::from_utf8_lossy(&s).to_string()), "output_string": out.custom_string(*osid).map(|s| String::from_utf8_lossy(&s).to_string())}));
+                    break;
+                }
+            }
+        }
+        if !out.is_cid_keyed() {
+            if let (Some(sn), Some(on)) = (sc.charset_ids(), out.charset_ids()) {
+                for (new, &old) in list.iter().enumerate().skip(1) {
+                    if old == 0 {
+                        continue;
+                    }
+                    if let (Some(ss), Some(os)) = (sn.get(old as usize - 1), on.get(new - 1)) {
+                        if name_of(out, *os) != name_of(sc, *ss) {
+                            ctx.violation("C07:independent-reader:glyph-name-changed", || json!({"case": case.describe(), "old_id": old, "new_id": new, "source_sid": ss, "output_sid": os, "source_name": sc.custom_string(*ss).map(|s| String::from_utf8_lossy(&s).to_string()), "output_name": out.custom_string(*os).map(|s| String::from_utf8_lossy(&s).to_string())}));
+                            break;
+                        }
+                    }
+                }
+            }
         }
         let strip = |d: Vec<(u16, Vec<f64>)>, drop: &[u16]| -> Vec<(u16, Vec<f64>)> { d.into_iter().filter(|e| !drop.contains(&e.0)).collect() };
         let same = |a: &[(u16, Vec<f64>)], b: &[(u16, Vec<f64>)]| a.len() == b.len() && a.iter().zip(b.iter()).all(|(x, y)| x.0 == y.0 && x.1.len() == y.1.len() && x.1.iter().zip(y.1.iter()).all(|(p, q)| (p - q).abs() <= 1e-9 * p.abs().max(1.0)));
